@@ -40,6 +40,7 @@ type shrinkCase struct {
 	Hooks      [][]string   `json:"hooks"`   // SETHOOK/SETCHAN commands
 	Batches    [][][]string `json:"batches"` // writes issued at successive gate stages
 	CrashStage string       `json:"crash_stage"`
+	Pump       bool         `json:"pump"` // a free-running writer streams SETs from the before-swap stage until the shrink ended
 }
 
 type colSpec struct {
@@ -177,8 +178,9 @@ func drawCase(rt *rapid.T) shrinkCase {
 	for i := 0; i < nb; i++ {
 		sc.Batches = append(sc.Batches, rapid.SliceOfN(writeGen, 0, 3).Draw(rt, "batch"))
 	}
-	stages := append([]string{"", "", ""}, swapStages...)
+	stages := append([]string{"", "", "", "", ""}, swapStages...)
 	sc.CrashStage = rapid.SampledFrom(stages).Draw(rt, "crashstage")
+	sc.Pump = rapid.Bool().Draw(rt, "pump")
 	return sc
 }
 
@@ -310,6 +312,34 @@ func runCase(t ev.Failer, c *ev.Collector, sc shrinkCase) (labels []string) {
 		t.Fatalf("AOFSHRINK: %s", v)
 	}
 	batch := 0
+	// pump: genuinely concurrent writes while the final swap runs (the gates
+	// cannot reach the window between the last gate and the swap's lock)
+	var pumpStop chan struct{}
+	var pumpDone chan int
+	startPump := func() {
+		pumpStop = make(chan struct{})
+		pumpDone = make(chan int, 1)
+		pc := S.MustDial()
+		go func() {
+			defer pc.Close()
+			n := 0
+			for {
+				select {
+				case <-pumpStop:
+					pumpDone <- n
+					return
+				default:
+				}
+				v, err := pc.Do("SET", "pumpkey", fmt.Sprintf("p%06d", n), "POINT", "1", "1")
+				if err != nil || v.IsErr() {
+					pumpDone <- n
+					return
+				}
+				n++
+			}
+		}()
+	}
+	pumped := 0
 	var snapDir string
 	gates, writesDuring := 0, 0
 	deadline := time.After(120 * time.Second)
@@ -320,6 +350,17 @@ loop:
 			switch {
 			case e.name == "ended":
 				close(e.release)
+				if pumpStop != nil {
+					close(pumpStop)
+					pumped = <-pumpDone
+					var cmds [][]string
+					for i := 0; i < pumped; i++ {
+						cmds = append(cmds, []string{"SET", "pumpkey", fmt.Sprintf("p%06d", i), "POINT", "1", "1"})
+					}
+					if err := pipeline(ct, cmds); err != nil {
+						t.Fatalf("pump replay on twin: %v", err)
+					}
+				}
 				break loop
 			case strings.HasPrefix(e.name, "swap:"):
 				// the server lock is held here: only look at the disk
@@ -332,6 +373,9 @@ loop:
 				close(e.release)
 			default:
 				gates++
+				if e.name == "before-swap" && sc.Pump && sc.CrashStage == "" {
+					startPump()
+				}
 				if batch < len(sc.Batches) {
 					for _, cmd := range sc.Batches[batch] {
 						name := strings.ToLower(cmd[0])
@@ -362,6 +406,9 @@ loop:
 	}
 	if writesDuring > 0 {
 		labels = append(labels, "writes-during-shrink")
+	}
+	if pumped > 0 {
+		labels = append(labels, "free-running-writer-during-swap")
 	}
 	// 1. the served state did not change
 	dT, err := t38.TakeDump(T.Addr)
@@ -478,6 +525,7 @@ func caseKey(sc shrinkCase, labels []string) string {
 		b.WriteString("|")
 	}
 	b.WriteString(sc.CrashStage)
+	fmt.Fprint(&b, sc.Pump)
 	return b.String()
 }
 
@@ -493,7 +541,7 @@ func TestC09_Shrink(t *testing.T) {
 		nt := false
 		for _, l := range labels {
 			c.Label(l)
-			if l == "writes-during-shrink" || strings.HasPrefix(l, "crash:") {
+			if l == "writes-during-shrink" || l == "free-running-writer-during-swap" || strings.HasPrefix(l, "crash:") {
 				nt = true
 			}
 		}
@@ -606,6 +654,110 @@ func reproducesRename() bool {
 	// at the first gates everything up to col07 is being scanned; rename the last key onto the first
 	sc.Batches = [][][]string{nil, nil, {{"RENAME", "col09", "col00"}}}
 	return probeFails(sc)
+}
+
+// TestC09_ConcurrentStress: free-running writers during repeated shrinks; after
+// a restart every acknowledged write must be there.
+func TestC09_ConcurrentStress(t *testing.T) {
+	c := ev.New("C09", "concurrent-stress", "exploration")
+	t.Cleanup(c.Flush)
+	c.Rule("free-running schedule: 8 connections stream SETs with unique ids (and a DEL of every fifth) while AOFSHRINK is issued repeatedly; afterwards a server booted on a snapshot of the directory must hold exactly the acknowledged state (set of ids). Non-trivial: each shrink round that completed while writers were active; distinct by round.")
+	S, err := t38.Start(t38.Opts{})
+	if err != nil {
+		t.Fatal(err)
+	}
+	defer S.StopAsync()
+	rounds := ev.Pick(12, 60)
+	stop := make(chan struct{})
+	var wg sync.WaitGroup
+	acked := make([]int, 8)
+	for w := 0; w < 8; w++ {
+		wg.Add(1)
+		go func(w int) {
+			defer wg.Done()
+			cn := S.MustDial()
+			defer cn.Close()
+			for n := 0; ; n++ {
+				select {
+				case <-stop:
+					return
+				default:
+				}
+				if v, err := cn.Do("SET", "stress", fmt.Sprintf("w%d-%07d", w, n), "FIELD", "n", fmt.Sprint(n+1), "POINT", "1", "2"); err != nil || v.IsErr() {
+					return
+				}
+				if n%5 == 4 {
+					if v, err := cn.Do("DEL", "stress", fmt.Sprintf("w%d-%07d", w, n-2)); err != nil || v.IsErr() {
+						return
+					}
+				}
+				acked[w] = n + 1
+			}
+		}(w)
+	}
+	ctl := S.MustDial()
+	defer ctl.Close()
+	done := 0
+	for r := 0; r < rounds; r++ {
+		ctl.MustDo("AOFSHRINK")
+		// wait for the rewrite to finish: the -shrink file disappears when it is renamed
+		time.Sleep(5 * time.Millisecond)
+		for i := 0; i < 2000; i++ {
+			if _, err := os.Stat(S.AOFPath() + "-shrink"); os.IsNotExist(err) {
+				break
+			}
+			time.Sleep(2 * time.Millisecond)
+		}
+		done++
+		c.Case()
+		c.NonTrivial(fmt.Sprint("round", r))
+	}
+	close(stop)
+	wg.Wait()
+	// let a possibly still running rewrite end
+	time.Sleep(50 * time.Millisecond)
+	for i := 0; i < 2000; i++ {
+		if _, err := os.Stat(S.AOFPath() + "-shrink"); os.IsNotExist(err) {
+			break
+		}
+		time.Sleep(2 * time.Millisecond)
+	}
+	before, err := t38.TakeDump(S.Addr)
+	if err != nil {
+		t.Fatal(err)
+	}
+	dir := t38.NewDir("c09stress")
+	defer os.RemoveAll(dir)
+	if err := t38.CopyDir(S.Dir, dir); err != nil {
+		t.Fatal(err)
+	}
+	after, R, err := bootDump(dir)
+	if err != nil {
+		c.Violation("shrink-restart-differs", "restart after concurrent shrinks: "+err.Error(), map[string]any{"stress": true})
+		t.Fatal(err)
+	}
+	defer R.StopAsync()
+	total := 0
+	for _, a := range acked {
+		total += a
+	}
+	c.Sample(map[string]any{"shrink_rounds": done, "acknowledged_sets": total, "objects_at_end": before.NumObjects()})
+	if diff := before.Diff(after); diff != "" {
+		c.Violation("shrink-loses-concurrent-writes", fmt.Sprintf("after %d AOFSHRINK rounds with 8 free-running writers (%d acknowledged SETs) a restart recovers a different dataset than was served (A=served, B=recovered): %s", done, total, diff), map[string]any{"stress": true, "rounds": done})
+		t.Fatalf("restart differs: %s", diff)
+	}
+	// and the served state itself holds every acknowledged write
+	for w, a := range acked {
+		for n := 0; n < a; n++ {
+			id := fmt.Sprintf("w%d-%07d", w, n)
+			_, have := before.Keys["stress"][id]
+			deleted := (n+2)%5 == 4 && n+2 < a
+			if have == deleted {
+				c.Violation("shrink-changes-served-state", fmt.Sprintf("acknowledged write %s: present=%v, expected deleted=%v", id, have, deleted), map[string]any{"stress": true})
+				t.Fatalf("served state wrong for %s", id)
+			}
+		}
+	}
 }
 
 func TestReplay(t *testing.T) {
